@@ -169,11 +169,32 @@ struct SemiS {
 };
 static_assert(!std::is_trivially_default_constructible_v<SemiS>);
 
+// trivially default constructible and trivially destructible, but with a user-provided copy assignment that can fail: the
+// library takes its "trivial element" shortcuts for it (assignment into fresh storage instead of construction), and those
+// assignments can throw
+struct TrivA {
+	i64 v;
+	TrivA() = default;
+	TrivA(TrivA const&) = default;
+	explicit TrivA(i64 x) : v{x} {}
+	auto operator=(TrivA const& o) -> TrivA& {
+		W.event(E_CASSIGN);
+		if(W.hit(F_CASSIGN)) throw injected_fault{F_CASSIGN, W.armed_k};
+		v = o.v;
+		return *this;
+	}
+	~TrivA() = default;
+	friend bool operator==(TrivA const& a, TrivA const& b) { return a.v == b.v; }
+	friend bool operator!=(TrivA const& a, TrivA const& b) { return a.v != b.v; }
+};
+static_assert(std::is_trivially_default_constructible_v<TrivA> && std::is_trivially_destructible_v<TrivA> && !std::is_trivially_copyable_v<TrivA>);
+
 struct ConvTriv {  // convertible to Triv; same size, other representation: a bit copy instead of a conversion shows as a wrong value
 	i64 w = -1;
 	ConvTriv() = default;
 	explicit ConvTriv(i64 v) : w{~v} {}
 	operator Triv() const { return Triv{~w}; }  // NOLINT
+	operator TrivA() const { return TrivA{~w}; }  // NOLINT
 };
 
 // ---- uniform element access for the harness
@@ -201,6 +222,17 @@ template<> struct elem_traits<Triv> {
 	static constexpr bool tracked = false, throwing_move = false, trivial = true;
 	static auto make(i64 v) -> E { return E{v}; }
 	static auto make_conv(i64 v) -> ConvTriv { return ConvTriv{v}; }  // explicit constructor: stores the complement
+	static auto read(E const& e, bool& /*ok*/) -> i64 { return e.v; }
+	static void write(E& e, i64 v) { e.v = v; }
+	static constexpr i64 value_init = 0;
+};
+
+template<> struct elem_traits<TrivA> {
+	using E    = TrivA;
+	using conv = ConvTriv;
+	static constexpr bool tracked = false, throwing_move = false, trivial = true;
+	static auto make(i64 v) -> E { return E{v}; }
+	static auto make_conv(i64 v) -> ConvTriv { return ConvTriv{v}; }
 	static auto read(E const& e, bool& /*ok*/) -> i64 { return e.v; }
 	static void write(E& e, i64 v) { e.v = v; }
 	static constexpr i64 value_init = 0;
